@@ -8,6 +8,8 @@ def _t(name, fn, op, n, props, isr=False, **kw):
 GROUPS = []
 for _n, _tier in ((2, "quick"), (3, "thorough")):
     for _op, _nm in ((0, "create"), (1, "delete"), (2, "service"), (3, "process")):
-        GROUPS.append(_t("tmr%d_%s" % (_n, _nm), "COTmr" + _nm.capitalize(), _op, _n, {"C07": _tier, "C08": _tier, "C01": _tier}))
+        GROUPS.append(_t("tmr%d_%s" % (_n, _nm), "COTmr" + _nm.capitalize(), _op, _n, {"C07": _tier, "C08": _tier, "C01": _tier,
+                                                   # the heartbeat/SYNC producers are cyclic timer actions: their period is kept only if create/delete keep every other action's due time
+                                                   "C10": (_tier if _nm in ("create", "delete") else "thorough")}))
     for _op, _nm in ((0, "create"), (1, "delete"), (3, "process")):
         GROUPS.append(_t("tmr%d_isr_%s" % (_n, _nm), "COTmr" + _nm.capitalize(), _op, _n, {"C08": _tier}, isr=True))
